@@ -8,12 +8,12 @@ The code works in f64; the model works over exact rationals.  Every quantity the
 threshold is an algebraic expression in square roots of rationals:
 
 * lengths `|v| = √(v·v)`;
-* with `θ = angle(u, v) = acos(clamp(u·v / (|u||v|)))` in `[0, π]`:  `cos θ = sgn(u·v)·√r`,
-  `sin θ = √(1 - r)` where `r = (u·v)² / (|u|²|v|²)` is rational, hence
-  `cos_dtheta = cos θo cos θn + sin θo sin θn = sgn(po)·sgn(pn)·√(ro·rn) + √((1-ro)(1-rn))`;
+* with `θ = angle(u, v) = acos(clamp(u·v / (|u||v|)))` in `[0, π]`:  `cos θ = u·v / (|u||v|)` and
+  `sin θ = √(1 - r) ≥ 0` where `r = (u·v)² / (|u|²|v|²)` is rational, hence
+  `cos_dtheta = cos θo cos θn + sin θo sin θn` needs lengths and one square root of a rational per angle;
 * `acos(clamp(c)).abs() < tol` is `c > cos tol` for `0 < tol ≤ π` (never for `tol ≤ 0`, always for `tol > π`).
 
-Square roots are enclosed by `Moyo.Reduce.sqrtLoHi` (certified, width ≤ 1e-30), `cos tol` by consecutive
+Square roots are enclosed by `sqrtDy` (width 2⁻¹⁰⁰, `Proofs/SearchBravais.lean: sqrtDy_sound`), `cos tol` by consecutive
 partial sums of its alternating Taylor series, and everything is propagated by interval arithmetic.
 A comparison whose exact value lies closer to the threshold than the error of the f64 evaluation is
 *fragile*: the model takes the nominal verdict and raises the `frag` flag of the answer (such an answer is
@@ -58,11 +58,38 @@ def gtIv (xl xh yl yh m : Rat) : Bool × Bool :=
   else if m < yl - xh then (false, false)
   else (decide (yh < xl), true)
 
+/-! ## Square roots -/
+
+/-- Newton iteration of `Nat.sqrt`, by structural recursion on fuel (so that the kernel can evaluate it). -/
+def isqrtIter (n : Nat) : Nat → Nat → Nat
+  | 0, g => g
+  | fuel + 1, g =>
+    let next := (g + n / g) / 2
+    if next < g then isqrtIter n fuel next else g
+
+/-- `⌊√n⌋`: the Newton result is checked (`s² ≤ n < (s+1)²`); `Nat.sqrt` is the (never needed) fallback. -/
+def isqrt (n : Nat) : Nat :=
+  if n ≤ 1 then n else
+  let s := isqrtIter n (n.log2 + 2) (1 <<< (n.log2 / 2 + 1))
+  if s * s ≤ n ∧ n < (s + 1) * (s + 1) then s else Nat.sqrt n
+
+/-- `lo ≤ √q < hi` with `hi - lo = 2⁻¹⁰⁰`: with `m = ⌊q·4¹⁰⁰⌋` and `s = ⌊√m⌋` one has
+`s ≤ √m ≤ 2¹⁰⁰√q < √(m+1) ≤ s + 1`.  (`(0, 0)` for `q ≤ 0`.) -/
+def sqrtDy (q : Rat) : Rat × Rat :=
+  if q ≤ 0 then (0, 0) else
+  let m := (q.num.toNat * 2 ^ 200) / q.den
+  let s := isqrt m
+  let d : Rat := ((2 ^ 100 : Nat) : Rat)
+  ((s : Rat) / d, ((s + 1 : Nat) : Rat) / d)
+
 /-! ## Lattice points -/
 
 /-- `iproduct!(-1..=1, -1..=1, -1..=1)`: the last factor varies fastest. -/
 def coeffs27 : List Z3 :=
   [-1, 0, 1].flatMap fun x => [-1, 0, 1].flatMap fun y => [-1, 0, 1].map fun z => (⟨x, y, z⟩ : Z3)
+
+/-- Position of `c` in `coeffs27`. -/
+def idxOf (c : Z3) : Nat := ((c.x + 1) * 9 + (c.y + 1) * 3 + (c.z + 1)).toNat
 
 /-- A lattice point `basis * coeffs` with its squared length and an enclosure of its length. -/
 structure VInfo where
@@ -76,7 +103,7 @@ deriving Repr, Inhabited
 def mkInfo (B : QM3) (c : Z3) : VInfo :=
   let v := comb B c
   let n := v.normSq
-  let (lo, hi) := sqrtLoHi n
+  let (lo, hi) := sqrtDy n
   ⟨c, v, n, lo, hi⟩
 
 /-- `(v_length - length).abs() < symprec`.
@@ -87,31 +114,47 @@ def lenTest (sp : Rat) (o w : VInfo) : Bool × Bool :=
 
 /-! ## Angles -/
 
-/-- `θ = u.angle(v)` as `cos θ = sg·√r`, `sin θ = √(1 - r)`. -/
+/-- Interval product. -/
+def mulIv (a b : Rat × Rat) : Rat × Rat :=
+  let p1 := a.1 * b.1
+  let p2 := a.1 * b.2
+  let p3 := a.2 * b.1
+  let p4 := a.2 * b.2
+  (minR (minR p1 p2) (minR p3 p4), maxR (maxR p1 p2) (maxR p3 p4))
+
+/-- `θ = u.angle(w) ∈ [0, π]`: enclosures of `cos θ = u·w/(|u||w|)` and of `sin θ = √(1 - cos²θ) ≥ 0`
+(`cos²θ = (u·w)²/(|u|²|w|²)` is rational), and `s2 = sin²θ` exactly. -/
 structure Ang where
-  sg : Int
-  r : Rat
+  cl : Rat
+  ch : Rat
+  sl : Rat
+  sh : Rat
+  s2 : Rat
 deriving Repr, Inhabited
 
-/-- nalgebra's `angle`: `0` when one of the norms is zero, else `acos(clamp(u·v / (|u||v|), -1, 1))`. -/
+/-- nalgebra's `angle`: `0` when one of the norms is zero, else `acos(clamp(u·w / (|u||w|), -1, 1))`. -/
 def angOf (u w : VInfo) : Ang :=
-  if u.nsq = 0 ∨ w.nsq = 0 then ⟨1, 1⟩
+  if u.nsq = 0 ∨ w.nsq = 0 then ⟨1, 1, 0, 0, 0⟩
   else
     let p := u.v.dot w.v
-    let r := minR 1 (p * p / (u.nsq * w.nsq))
-    ⟨if p < 0 then -1 else if 0 < p then 1 else 0, r⟩
+    let s2 := maxR 0 (1 - p * p / (u.nsq * w.nsq))
+    let (sl, sh) := sqrtDy s2
+    let dl := u.lo * w.lo
+    let dh := u.hi * w.hi
+    if dl ≤ 0 then ⟨-1, 1, sl, sh, s2⟩
+    else if 0 < p then ⟨p / dh, minR 1 (p / dl), sl, sh, s2⟩
+    else if p < 0 then ⟨maxR (-1) (p / dl), p / dh, sl, sh, s2⟩
+    else ⟨0, 0, sl, sh, s2⟩
 
 /-- Enclosure of `cos_dtheta = cos θo cos θn + sin θo sin θn`. -/
 def cosDiff (o n : Ang) : Rat × Rat :=
-  let (al, ah) := sqrtLoHi (o.r * n.r)
-  let (bl, bh) := sqrtLoHi (maxR 0 (1 - o.r) * maxR 0 (1 - n.r))
-  let s := o.sg * n.sg
-  if 0 < s then (al + bl, ah + bh) else if s < 0 then (bl - ah, bh - al) else (bl, bh)
+  let (al, ah) := mulIv (o.cl, o.ch) (n.cl, n.ch)
+  (al + o.sl * n.sl, ah + o.sh * n.sh)
 
 /-- Bound of the f64 error of `sin(acos(c))`: the error `≈ 3e-16` of `c` is amplified by `|cos θ| / sin θ`
 (and `acos(1 - 1e-16) ≈ 1.5e-8`), which matters when the two vectors are nearly (anti)parallel. -/
 def sinErr (a : Ang) : Rat :=
-  let s2 := 1 - a.r
+  let s2 := a.s2
   if (1 : Rat) / 4 ≤ s2 then 2 * e15
   else if (1 : Rat) / 10000 ≤ s2 then e13
   else if (1 : Rat) / ((10 ^ 12 : Nat) : Rat) ≤ s2 then e9
@@ -229,16 +272,19 @@ def anyFrag {α : Type} (items : List (Bool × Option α)) : Bool := items.any (
 
 /-! ## `traverse` -/
 
-/-- The loop of `traverse`: `queue`, `group` (most recent first).  `none`: out of fuel (pops). -/
+/-- The loop of `traverse`: `queue`, `group` (most recent first).  After recording a new element the code
+stops when the group has more than 48 elements (`if group.len() > 48 { break; }`).  `none`: out of fuel (pops);
+unreachable with the fuel of `traverse` (`Proofs/SearchBravais.lean: traverse_ne_none`). -/
 def bfs (gens : List M3) : Nat → List M3 → List M3 → Option (List M3)
   | _, [], group => some group.reverse
   | 0, _ :: _, _ => none
   | fuel + 1, e :: q, group =>
     if group.contains e then bfs gens fuel q group
+    else if (e :: group).length > 48 then some (e :: group).reverse
     else bfs gens fuel (q ++ gens.map (M3.mul e)) (e :: group)
 
-/-- `traverse(generators)`.  A run that outputs `g` elements pops `1 + g·|generators|` times, so the fuel
-suffices whenever the generated group has at most 48 elements (every finite subgroup of GL₃(ℤ) has). -/
+/-- `traverse(generators)`.  Only the first 48 recorded elements enqueue their `|generators|` products, so
+there are at most `1 + 48·|generators|` pops and the fuel always suffices. -/
 def traverse (gens : List M3) : Option (List M3) :=
   bfs gens (2 + 49 * gens.length) [M3.one] []
 
@@ -247,6 +293,7 @@ def traverse (gens : List M3) : Option (List M3) :=
 inductive Res
   | ok (rots : List M3)
   | tooLarge
+  /-- model fuel exhausted; never produced (`Proofs/SearchBravais.lean: searchBravais_ne_diverged`) -/
   | diverged
 deriving Repr, Inhabited, DecidableEq
 
@@ -279,10 +326,28 @@ def points (B : QM3) : List VInfo := coeffs27.map (mkInfo B)
 def lenT (cx : Ctx) (i : Nat) : VInfo → Bool × Bool :=
   lenTest cx.sp (match i with | 0 => cx.e0 | 1 => cx.e1 | _ => cx.e2)
 
+/-- Cache of `angleTest cx k pts[i] pts[j]` at position `729·k + 27·i + j`, evaluated on demand (the
+loops repeat the same comparison for every value of the third index). -/
+def mkTable (cx : Ctx) (pts : Array VInfo) : Array (Thunk (Bool × Bool)) :=
+  ((List.range (3 * 729)).map fun i =>
+    Thunk.mk fun _ => angleTest cx (i / 729) pts[(i % 729) / 27]! pts[i % 27]!).toArray
+
+/-- `angleTest cx k a b` through the cache (`a`, `b` are elements of `points B`). -/
+def lookup (cx : Ctx) (tbl : Array (Thunk (Bool × Bool))) (k : Nat) (a b : VInfo) : Bool × Bool :=
+  let i := idxOf a.c
+  let j := idxOf b.c
+  if k < 3 ∧ i < 27 ∧ j < 27 then
+    match tbl[729 * k + 27 * i + j]? with
+    | some t => t.get
+    | none => angleTest cx k a b
+  else angleTest cx k a b
+
 /-- `rotations` of `search_bravais_group` before `traverse`, with the fragility flag. -/
 def filterRun (B : QM3) (sp : Rat) (ang : Option Rat) : List (Bool × Option M3) × Bool :=
   let cx := mkCtx B sp ang
-  filterWith (lenT cx) (angleTest cx) (points B)
+  let pts := points B
+  let tbl := mkTable cx pts.toArray
+  filterWith (lenT cx) (lookup cx tbl) pts
 
 def filteredRotations (B : QM3) (sp : Rat) (ang : Option Rat) : List M3 :=
   collect (filterRun B sp ang).1
